@@ -26,6 +26,7 @@ META = {
 META["technique"] += '; newline-mode audit of every output buffer construction (shared with C06.R2)'
 META["technique"] += '; decoded-use rule for tokens admitted as quoted strings by a `.type_` comparison; integer-exactness rule on the math filters'
 META["technique"] += '; sibling comparator decrement / increment; provenance of values handed to to_liquid_string in render methods'
+META["technique"] += '; integer literals built by int_literal() only'
 META["level_text"] += ' Also decided (R5): no output buffer is built with a newline mode that rewrites CR/CRLF.'
 
 DECODERS = {"parse_string_or_identifier", "parse_string_or_path", "parse_primitive", "parse_boolean_primitive"}
@@ -70,6 +71,9 @@ def run(prog: Program, res: Result) -> None:  # noqa: PLR0912, PLR0915
                 site = f"{mod.relpath}:{c.lineno} {fi.qualname}"
                 what = f"`{norm(c, 70)}` converts the token text exactly"
                 bad = _float_on_path(prog, fi, val, 0)
+                # to_int() is the converter for *data* (it accepts what a float or a numeric string may hold); a literal's text goes through int_literal()
+                if not bad and val is not None and any(isinstance(x, ast.Call) and (dotted(x.func) or "").split(".")[-1] == "to_int" for x in ast.walk(val)):
+                    bad = "to_int(…): the data converter, not int_literal()"
                 if bad:
                     res.fail("C20.R1", file=mod.relpath, line=c.lineno, qualname=fi.qualname, construct=c, message=f"integer literal value passes through `{bad}`: integers above 2**53 change value and `1e400` overflows", what=what)
                 else:
